@@ -427,6 +427,52 @@ def r07_6(ctx: Ctx, rep: Report) -> None:
             rep.violation(q, f"return {snippet(rets[0]) if rets else ''}", f"objects are not returned in configuration order: {state} ({why})", where(f))
 
 
+def group_test_is_per_address(ctx: Ctx, rep: Report, rid: str = "R07.9") -> None:
+    """Whether the referenced group is defined is decided per address: the test filters the address it was asked about
+    and nothing else (an undefined group on one side must not take the defined group of the other side with it)."""
+    rep.rule(rid)
+    f = ctx.func("functions._add_addgr_to_aces")
+    chk = ctx.prog.find_func("functions._check_addgr")
+    rep.require(chk is not None, "functions._check_addgr vanished")
+    calls = [e.site for e in ctx.cg.all_edges(f) if e.target is chk and isinstance(e.site, ast.Call)]
+    rep.instance(len(calls))
+    rep.floor(1, "calls of _check_addgr in _add_addgr_to_aces")
+    from .common import bind_call
+
+    for c in calls:
+        b = bind_call(chk, c, bound=False) or {}
+        addr_params = [p_ for p_ in chk.params if "addr" in p_ and "addgr" not in p_] or chk.params[2:3]
+        a = b.get(addr_params[0]) if addr_params else None
+        subject = a.id if isinstance(a, ast.Name) else None
+        verdict = None
+        n = c
+        while n is not None and n is not f.node:
+            par = getattr(n, "_parent", None)
+            if isinstance(par, ast.Call) and isinstance(par.func, ast.Name) and par.func.id in ("all", "any") :
+                verdict = f"the per-address answers are folded into one by {par.func.id}(): an undefined group on one side decides about the other side too"
+                break
+            if isinstance(par, ast.comprehension) and n in par.ifs:
+                if subject is not None and subject in {x.id for x in ast.walk(par.target) if isinstance(x, ast.Name)}:
+                    verdict = ""
+                else:
+                    verdict = "the filter is not on the address that was tested"
+                break
+            if isinstance(par, ast.If) and (n is par.test or any(n is x for x in ast.walk(par.test))):
+                loop = par
+                while loop is not None and not isinstance(loop, ast.For):
+                    loop = getattr(loop, "_parent", None)
+                if loop is not None and subject is not None and subject in {x.id for x in ast.walk(loop.target) if isinstance(x, ast.Name)}:
+                    verdict = ""
+                else:
+                    verdict = "the test guards more than the address it was asked about (its nearest loop does not run over the tested address)"
+                break
+            n = par
+        if verdict == "":
+            rep.ok(f"functions._add_addgr_to_aces: {snippet(c, 50)}", f"filters `{subject}` only", where=where(f, c))
+        else:
+            rep.violation("functions._add_addgr_to_aces", snippet(c, 60), verdict or "the answer of the group test is not used as a per-address filter", where(f, c), inp="permit ip object-group DEFINED object-group UNDEFINED: the defined group is not expanded")
+
+
 def run(ctx: Ctx, rep: Report, tier: str) -> None:
     r07_1(ctx, rep)
     r07_2(ctx, rep)
@@ -438,6 +484,16 @@ def run(ctx: Ctx, rep: Report, tier: str) -> None:
 
     normaliser_total(ctx, rep, rid="R07.7")
     interface_filter(ctx, rep)
+    group_test_is_per_address(ctx, rep)
+    # R07.10 a member reaches the ACE through its rendered line: the kind tests single out exactly the network the
+    # rendered keyword stands for (C01's classification guards); R07.11 entries are stored in line order (C12 R12.4)
+    from .c01 import classification_guards
+    from .c12 import r12_4
+
+    classification_guards(ctx, rep, rid="R07.10")
+    sub = Report("C07")
+    r12_4(ctx, sub)
+    rep.absorb(sub, "R07.11")
     # R07.5 section keys agree with object headers
     from .c06 import r06_1
 
